@@ -7,7 +7,15 @@ The rules file's Go AST comes annotated with what `types.Info` says about each n
 `cv` = `Types[e].Value` (none / a string / an int that fits int64 / a bigger int / another kind) and
 `isString` = "`Types` has `e` and `Type.String() == "string"`".  A basic literal also carries
 `strconv.Unquote(Value)`.  The result is the IR modulo `Src` and `Line` (both left zero).
-Local helper calls (`findLocalMacro`) are outside this model (see `Rg/Model/Macro.lean`).
+Local helper calls (`findLocalMacro`) are outside this model (see `Rg/Model/Macro.lean`): `expandMacro`
+builds a source expression and converts *that* with the same function.
+
+Arity: the dsl package fixes the number of arguments of the real predicates, but the converter goes by
+names, so a user method named like a predicate can arrive with none.  The string-valued calls read their
+argument through `arg0()` (commit 149f4cd: a located error); the calls converted after
+`convertExprList` did not — `convertAsIs` — until `fixes/c06-predicate-arity.diff` — `convert`.
+No partial operation is left in either (`Comp.convertG_noPanic`); `CRes.panic` stays in the result type
+for the rule-level model (`Rg/Model/SrcLoad.lean`: `(*atArgs)[0]` before `fixes/c06-chain-arity.diff`).
 -/
 namespace Conv
 open IR
@@ -152,32 +160,46 @@ def listCalls : List (List String × String × Bool × Bool) :=
 
 def dollars : Bytes := [36, 36]
 
+/-- call paths whose first argument the loader reads (`filter.Args[0]`): since
+`fixes/c06-predicate-arity.diff` the converter asks for it with `arg0()` — a located error when a user
+method merely named like the predicate is called without arguments -/
+def argCalls : List (List String) :=
+  [["Text", "Matches"], ["Node", "Is"], ["Node", "Parent", "Is"], ["Object", "Is"], ["SinkType", "Is"],
+   ["Type", "Is"], ["Type", "Underlying", "Is"], ["Type", "OfKind"], ["Type", "Underlying", "OfKind"],
+   ["Type", "ConvertibleTo"], ["Type", "AssignableTo"], ["Type", "Implements"], ["Type", "HasMethod"]]
+
+/-!
+`ar` = the arity check of `fixes/c06-predicate-arity.diff` is present (`convert` = the repaired
+converter, `convertAsIs` = the converter before that repair, which hands `VarTextMatches` & co. with
+`Args: []` to the loader).  The string-valued calls (`GoVersion.Eq`, `File.Imports`, `Contains`,
+`Type.IdenticalTo`, `Filter`, …) read their argument through `arg0()` in both (commit 149f4cd).
+-/
 mutual
 /-- `convertFilterExpr` (modulo Src/Line): the implementation's result must be a valid op -/
-def convert : CExpr → CRes FilterExpr
+def convertG (ar : Bool) : CExpr → CRes FilterExpr
   | e =>
-    match convertImpl e with
+    match convertImplG ar e with
     | .ok r => if r.op == 0 then .err else .ok r
     | .err => .err
     | .panic p => .panic p
 /-- `convertFilterExprImpl`: constant folding first, then the structure -/
-def convertImpl : CExpr → CRes FilterExpr
+def convertImplG (ar : Bool) : CExpr → CRes FilterExpr
   | e =>
     match e.ann.cv with
     | .str s => .ok (mkOp "String" (.str s) [])
     | .int n => .ok (mkOp "Int" (.int64 n) [])
-    | _ => convertStruct e
-def convertStruct : CExpr → CRes FilterExpr
-  | .paren _ x => convert x
+    | _ => convertStructG ar e
+def convertStructG (ar : Bool) : CExpr → CRes FilterExpr
+  | .paren _ x => convertG ar x
   | .unary _ op x =>
-    (match convert x with
+    (match convertG ar x with
      | .ok x' => if op == "!" then .ok (mkOp "Not" .nil [x']) else .ok invalid
      | .err => .err
      | .panic p => .panic p)
   | .binary _ op x y =>
-    (match convert x with
+    (match convertG ar x with
      | .ok x' =>
-       (match convert y with
+       (match convertG ar y with
         | .ok y' =>
           (match binaryOp op with
            | some name => .ok (mkOp name .nil [x', y'])
@@ -207,7 +229,7 @@ def convertStruct : CExpr → CRes FilterExpr
             | .ok v => .ok (mkOp name (.str v) [])
             | .err => .err
             | .panic p => .panic p)
-          | [] => .panic .index)
+          | [] => .err)                      -- arg0(): "expected an argument"
        | none =>
          if s.path == ["Contains"] then
            (match args with
@@ -215,7 +237,7 @@ def convertStruct : CExpr → CRes FilterExpr
               | .ok v => .ok (mkOp "VarContains" (.str s.varName) [mkOp "String" (.str v) []])
               | .err => .err
               | .panic p => .panic p)
-            | [] => .panic .index)
+            | [] => .err)
          else if s.path == ["Type", "IdenticalTo"] then
            (match args with
             | .index _ _ i :: _ => (match parseStringArg i with
@@ -223,18 +245,20 @@ def convertStruct : CExpr → CRes FilterExpr
               | .err => .err
               | .panic p => .panic p)
             | _ :: _ => .err
-            | [] => .panic .index)
+            | [] => .err)
          else if s.path == ["Filter"] then
            (match args with
             | .ident _ name :: _ => .ok (mkOp "VarFilter" (.str s.varName) [mkOp "FilterFuncRef" (.str name.toUTF8.toList) []])
             | _ :: _ => .err
-            | [] => .panic .index)
+            | [] => .err)
          else
            -- args := convertExprList(e.Args): every argument is converted before the path is looked at
-           (match convertList args with
+           (match convertListG ar args with
             | .err => .err
             | .panic p => .panic p
             | .ok args' =>
+              -- `arg0()` for the predicates whose Args[0] the loader reads (c06-predicate-arity)
+              if ar && argCalls.contains s.path && args.isEmpty then .err else
               match listCalls.lookup s.path with
               | some (name, _, keepArgs) => .ok (mkOp name (.str s.varName) (if keepArgs then args' else []))
               | none =>
@@ -244,17 +268,25 @@ def convertStruct : CExpr → CRes FilterExpr
                   (if s.varName == dollars then .ok (mkOp "RootSinkTypeIs" (.str s.varName) args') else .err)
                 else .ok invalid))
   | _ => .ok invalid
-def convertList : List CExpr → CRes (List FilterExpr)
+def convertListG (ar : Bool) : List CExpr → CRes (List FilterExpr)
   | [] => .ok []
   | a :: as =>
-    (match convert a with
+    (match convertG ar a with
      | .ok a' =>
-       (match convertList as with
+       (match convertListG ar as with
         | .ok as' => .ok (a' :: as')
         | .err => .err
         | .panic p => .panic p)
      | .err => .err
      | .panic p => .panic p)
 end
+
+/-- the converter after `fixes/c06-predicate-arity.diff` -/
+abbrev convert : CExpr → CRes FilterExpr := convertG true
+abbrev convertImpl : CExpr → CRes FilterExpr := convertImplG true
+abbrev convertStruct : CExpr → CRes FilterExpr := convertStructG true
+abbrev convertList : List CExpr → CRes (List FilterExpr) := convertListG true
+/-- the converter before it -/
+abbrev convertAsIs : CExpr → CRes FilterExpr := convertG false
 
 end Conv
